@@ -476,12 +476,40 @@ class Case:
     # ---- the message
     def to_bytes(self) -> bytes:
         b = self._to_bytes()
+        self.writer_fallback = False
+        if self.m["ser"] in ("smtp", "smtputf8", "compat32") and not self._writer_ok(b):
+            # the generator produced a header that does not say what it was given (CPython 3.12.1 encodes
+            # the list-separating comma of a refolded address header as =?utf-8?q?=2C?=): not a conforming
+            # message, so not a test case -- the same abstract message is written by hand instead
+            self.writer_fallback = True
+            self.m = dict(self.m, ser="handcrlf")
+            try:
+                b = self._to_bytes()
+            finally:
+                self.m = dict(self.m, ser=self._orig_ser)
         for a in self.atts:
             if a["fn"] is not None and a["a"]["fn"] == "rfc2047":
                 ew = encode_words(a["fn"], "utf-8", self.rng.choice(["b", "q"])).encode("ascii")
                 ph = re.compile(rb'filename="?C16PH%d\.%s"?' % (a["j"], EXT[a["pl"]].encode()))
                 b = ph.sub(b'filename="' + ew + b'"', b)
         return b
+
+    def _writer_ok(self, b: bytes) -> bool:
+        """Writer self-test with the standard library's *modern* parser (policy.default; neither extractor
+        uses it): the address headers and the subject read back must be the ones written."""
+        self._orig_ser = self.m["ser"]
+        try:
+            chk = email.message_from_bytes(b, policy=policy.default)
+            for h, label in (("from", "From"), ("to", "To"), ("cc", "Cc"), ("bcc", "Bcc"), ("rt", "Reply-To")):
+                want = [(name, addr) for _, name, addr in self.boxes[h]]
+                got = [(a.display_name, a.addr_spec) for a in chk[label].addresses] if chk[label] is not None else []
+                if want != got:
+                    return False
+            if self.subj_words and str(chk["Subject"]).split() != self.subj_words:
+                return False
+            return True
+        except Exception:
+            return False
 
     def _to_bytes(self) -> bytes:
         ser = self.m["ser"]
